@@ -640,7 +640,19 @@ func genStall(r *vlib.R, tier string, emit func(string)) {
 		emit(fmt.Sprintf("conc dup %s %d %d", vlib.Pick(r, []string{"cache", "segmap"}), mode, r.U64()>>1))
 	}
 	emit(fmt.Sprintf("conc dup cache %d %d", vlib.Pick(r, []int{0, 3}), r.U64()>>1))
+	// readers / capacity-checking writers arriving while a segment is busy
+	for mode := 0; mode <= 2; mode++ {
+		emit(fmt.Sprintf("conc gate cache %d %d", mode, r.U64()>>1))
+		emit(fmt.Sprintf("conc gate segmap %d %d", mode, r.U64()>>1))
+	}
+	emit(fmt.Sprintf("conc gate cache 2 %d", r.U64()>>1))
 	if tier == "thorough" {
+		for mode := 0; mode <= 2; mode++ {
+			for i := 0; i < 4; i++ {
+				emit(fmt.Sprintf("conc gate cache %d %d", mode, r.U64()>>1))
+				emit(fmt.Sprintf("conc gate segmap %d %d", mode, r.U64()>>1))
+			}
+		}
 		for mode := 0; mode <= 3; mode++ {
 			for i := 0; i < 4; i++ {
 				emit(fmt.Sprintf("conc dup cache %d %d", mode, r.U64()>>1))
